@@ -6,12 +6,45 @@
   the reader's generator may raise at any item (`cfg.readFault`); thread starts may be refused
   (`cfg.refuse`).  The theorems of C03 that do not assume `noFaults`/a passive callback are
   C04's theorems about termination and threads; they are restated here under C04's names so the
-  obligation census of C04 counts them.
+  obligation census of C04 counts them.  The others:
+
+  1. `C04_cancel_bound_read(_exact)`, `C04_read_fault_no_more`: after the stop flag is set the reader
+     pushes at most the one piece whose `put` it is blocked in; after a read fault none.
+  2. `C04_cancel_bound_hash`: at most `cap + N + 1` pieces are hashed after the stop request.
+  3. `C04_no_partial`, `C04_finish_sound`, `C04_uncancelled_complete`: a returned result holds
+     distinct hashable pieces only; it is stored iff it is complete; it is complete unless cancelled.
+  4. `C04_callback_exc(_last)`, `C04_callback_exc_kept(_nofault)`: the callback's exception reaches
+     the caller unchanged, unless a read error replaces it.
+  5. `C04_read_error`, `C04_read_error_only_fault`, `C04_read_error_only_if`: a read failure
+     surfaces as the read error, and the read error is raised only then.
+  6. `C04_reader_refused`, `C04_other_hasher_refused_ok`; `C04_vital_refused_counterexample`,
+     `C04_janitor_refused_counterexample` (finding D04a: the full statement
+     `C04_threads_done_full` is false).
+  1–3 and the ⇐ halves of 4, 5 hold for EVERY configuration (refused starts included).
+
+  Proof: main's step relation for every configuration `MainStepG`/`StepG` (Lemmas/PipelineC04Step)
+  and further inductive invariants next to C03's:
+  * `InvG` (PipelineC04Inv; every cfg): `hs.length = N`; `pq.length ≤ cap`; `rexc` ⇒ the reader
+    is `closing`/`done` and `readFault = some r`, `r ≤ #items`; `finished (returned c)` ⇒
+    `c = collected`; pending `.cb d` ⇒ `d = #seen` and the callback raised for the last piece of
+    `seen` at pieces_done = d; pending `.read` ⇒ `rexc`.  `stop`, `rexc` are monotone.
+  * PipelineC04Cancel (every cfg): every non-reader step preserves `#inFlight`; with `stop` set
+    `#inFlight + pushCredit` (1 iff the reader is `putting`) never increases; a reader that is
+    `closing`/`done` stays so and pushes nothing.
+  * `InvE`, `InvF` (PipelineC04Exc; `refuse = []`): after `reader.join()`, `rexc` ⇒ the pending
+    exception is `.read`; main past the collect loop without pending exception, `stop = false`,
+    `rexc = false` ⇒ `seen` is a permutation of all pieces.  `Pend d` (every cfg): "pending
+    exception is `.cb d`, or `.read` with `rexc`" is preserved by every step.
+  * `InvRR` (PipelineC04Refuse; `.reader ∈ refuse`): main is before `startReader` or has raised
+    that refusal; no thread was started.  `InvR1` = C03's `InvB1` without "no hasher is refused"
+    (only `hs[0]` is not) and C03's `InvB3` re-established for `StepG` (PipelineC04RefuseJan), for
+    configurations that refuse non-vital hashers only.
 -/
 import Torf.Properties.C03
 import Torf.Lemmas.PipelineC04Exc
 import Torf.Lemmas.PipelineC04Cancel
 import Torf.Lemmas.PipelineC04Result
+import Torf.Lemmas.PipelineC04RefuseJan
 import Torf.Model.Generate
 namespace Torf.C04
 open Torf.Pipeline Torf.C03
@@ -266,6 +299,29 @@ theorem C04_finish_sound {cfg : Cfg} {s : State} {c : List Nat} (h : Reachable c
     rw [if_neg hl, if_pos hlt]
     exact ⟨rfl, hlt⟩
 
+/-- Conversely (no refused starts): a result that is returned although nobody asked to stop is
+    complete — a partial result is only ever returned after a cancellation (read errors raise,
+    `C04_read_error`), so `generate()` returns False only if its callback cancelled. -/
+theorem C04_uncancelled_complete {cfg : Cfg} {s : State} {c : List Nat} (hrf : cfg.refuse = [])
+    (h : Reachable cfg s) (hr : result? s = some (.returned c)) (hst : s.stop = false) :
+    c.mergeSort (fun a b => decide (a ≤ b)) = hashedItems cfg ∧
+    Generate.finish (hashedItems cfg).length (c.mergeSort (fun a b => decide (a ≤ b))) =
+      .stored (hashedItems cfg) := by
+  have hm := terminal_of_result hr
+  have ht : terminal s = true := by simp [terminal, hm]
+  have hx : s.rexc = false := by
+    cases hx : s.rexc with
+    | false => rfl
+    | true => have := C04_read_error hrf h ht hx; rw [hr] at this; simp at this
+  have hp := (InvF.of_reachable hrf h).all (by rw [hm]; rfl) (by rw [hm]; rfl) hst hx
+  have hc := (InvG.of_reachable h).ret c hm
+  have hsort : c.mergeSort (fun a b => decide (a ≤ b)) = hashedItems cfg := by
+    rw [hc, (InvA.of_reachable h).coll, hashedItems_eq]
+    exact mergeSort_eq_of_perm_sorted (hp.filter _) ((pairwise_le_range _).filter _)
+  refine ⟨hsort, ?_⟩
+  rw [hsort]
+  simp [Generate.finish]
+
 /-- the cancelled run of `cfgCancel` returns four of the five pieces; `finish` reports cancellation -/
 example : Reachable cfgCancel (after cfgCancel schedCancel) ∧
     result? (after cfgCancel schedCancel) = some (.returned [0, 1, 2, 3]) ∧
@@ -283,5 +339,97 @@ example : Reachable cfgLate (after cfgLate schedRead) ∧ (after cfgLate schedRe
     [0].length = (hashedItems cfgLate).length ∧
     Generate.finish (hashedItems cfgLate).length [0] = .stored (hashedItems cfgLate) :=
   ⟨reach_after (by decide), by decide, by decide, by decide, by decide⟩
+
+/-- the hypotheses of `C04_uncancelled_complete` are satisfiable: a plain complete run -/
+private def cfgPlain : Cfg := { cfgLate with cb := fun _ _ => .pass }
+
+example : cfgPlain.refuse = [] ∧ Reachable cfgPlain (after cfgPlain schedRead) ∧
+    result? (after cfgPlain schedRead) = some (.returned [0]) ∧
+    (after cfgPlain schedRead).stop = false :=
+  ⟨rfl, reach_after (by decide), by decide, by decide⟩
+
+/-! ### 6. refused thread starts -/
+
+/-- If the OS refuses to start the reader (the first thread), `generate()`/`verify()` raise that
+    RuntimeError and no thread has been started at all. -/
+theorem C04_reader_refused {cfg : Cfg} {s : State} (hrr : Tid.reader ∈ cfg.refuse)
+    (h : Reachable cfg s) (ht : terminal s = true) :
+    result? s = some (.raised (.startRefused .reader)) ∧ allThreadsDone s = true :=
+  (InvRR.of_reachable hrr h).terminal ht
+
+/-- Refused starts of non-vital hashers (number ≥ 1; `HasherPool.__init__` swallows the
+    RuntimeError) do no harm: when main returns or raises, no thread is left running —
+    `C04_threads_done` for every configuration whose refusals are of that kind. -/
+theorem C04_other_hasher_refused_ok {cfg : Cfg} {s : State}
+    (hnv : ∀ t ∈ cfg.refuse, ∃ i : Nat, 1 ≤ i ∧ t = Tid.hasher i) (_hwf : wf cfg = true)
+    (h : Reachable cfg s) (ht : terminal s = true) : allThreadsDone s = true :=
+  (InvR.of_reachable hnv h).threads_done ht
+
+/-- the full statement — no thread survives main, whichever starts are refused — is FALSE for the
+    model (and for the code: known finding D04a) -/
+def C04_threads_done_full : Prop :=
+  ∀ (cfg : Cfg) (s : State), wf cfg = true → Reachable cfg s → terminal s = true →
+    allThreadsDone s = true
+
+/-- one hasher, capacity 1, two pieces; the start of the vital hasher is refused -/
+private def cfgVital : Cfg :=
+  { N := 1, cap := 1, items := [.data, .data], readFault := none, refuse := [.hasher 0],
+    raiseOnBad := false, cb := fun _ _ => .pass }
+
+/-- the same with the janitor's start refused -/
+private def cfgJan : Cfg := { cfgVital with refuse := [.janitor] }
+
+/-- Finding D04a in the model: the start of the vital hasher is refused, main raises the
+    RuntimeError while the reader keeps running; two steps later the reader is blocked on the full
+    piece queue and NO thread can take any step any more — it hangs forever. -/
+theorem C04_vital_refused_counterexample :
+    wf cfgVital = true ∧ cfgVital.refuse = [.hasher 0] ∧
+    Reachable cfgVital (after cfgVital [lM, lM, lM, lM, lR, lR]) ∧
+    result? (after cfgVital [lM, lM, lM, lM, lR, lR]) = some (.raised (.startRefused (.hasher 0))) ∧
+    (after cfgVital [lM, lM, lM, lM, lR, lR]).rpc = .putting 1 ∧
+    allThreadsDone (after cfgVital [lM, lM, lM, lM, lR, lR]) = false ∧
+    (allLabels cfgVital).all (fun l => (step cfgVital (after cfgVital [lM, lM, lM, lM, lR, lR]) l).isNone) = true :=
+  ⟨by decide, rfl, reach_after (by decide), by decide, by decide, by decide, by decide⟩
+
+/-- the same finding for the janitor: main raises while the reader and the vital hasher run on -/
+theorem C04_janitor_refused_counterexample :
+    wf cfgJan = true ∧ cfgJan.refuse = [.janitor] ∧
+    Reachable cfgJan (after cfgJan [lM, lM, lM, lM, lM, lM]) ∧
+    result? (after cfgJan [lM, lM, lM, lM, lM, lM]) = some (.raised (.startRefused .janitor)) ∧
+    (after cfgJan [lM, lM, lM, lM, lM, lM]).rpc.running = true ∧
+    hasherRunning (after cfgJan [lM, lM, lM, lM, lM, lM]) 0 = true ∧
+    allThreadsDone (after cfgJan [lM, lM, lM, lM, lM, lM]) = false :=
+  ⟨by decide, rfl, reach_after (by decide), by decide, by decide, by decide, by decide⟩
+
+theorem C04_threads_done_full_counterexample : ¬ C04_threads_done_full := by
+  intro h
+  have h1 := C04_vital_refused_counterexample
+  have := h cfgVital _ h1.1 h1.2.2.1 (by decide)
+  rw [h1.2.2.2.2.2.1] at this
+  exact Bool.noConfusion this
+
+/-- the reader's start refused: the hypotheses of `C04_reader_refused` are satisfiable -/
+private def cfgNoReader : Cfg := { cfgVital with refuse := [.reader] }
+
+example : Tid.reader ∈ cfgNoReader.refuse ∧ Reachable cfgNoReader (after cfgNoReader [lM, lM]) ∧
+    terminal (after cfgNoReader [lM, lM]) = true ∧
+    result? (after cfgNoReader [lM, lM]) = some (.raised (.startRefused .reader)) :=
+  ⟨by decide, reach_after (by decide), by decide, by decide⟩
+
+/-- two hashers requested, the second one refused: a complete run with one hasher -/
+private def cfgOther : Cfg :=
+  { N := 2, cap := 1, items := [.data], readFault := none, refuse := [.hasher 1],
+    raiseOnBad := false, cb := fun _ _ => .pass }
+
+private def schedOther : List Label :=
+  [lM, lM, lM, lM, lM, lM, lM, lM, lR, lR, lH, lH, lR, lH, lH, lH, lH, lJ, lJ, lJ, lJ, lJ,
+   lM, lM, lM, lM, lM, lM]
+
+example : (∀ t ∈ cfgOther.refuse, ∃ i : Nat, 1 ≤ i ∧ t = Tid.hasher i) ∧ wf cfgOther = true ∧
+    Reachable cfgOther (after cfgOther schedOther) ∧ terminal (after cfgOther schedOther) = true ∧
+    (after cfgOther schedOther).hs = [.done, .refused] ∧
+    result? (after cfgOther schedOther) = some (.returned [0]) ∧
+    allThreadsDone (after cfgOther schedOther) = true :=
+  ⟨by simp [cfgOther], by decide, reach_after (by decide), by decide, by decide, by decide, by decide⟩
 
 end Torf.C04
